@@ -694,6 +694,8 @@ class Cli:
         kind = rng.choice(["no_grammar", "no_input", "two_inputs", "no_constraint_check"])
         cmd = rng.choice(["check", "parse", "repair", "mutate"])
         s = self.make_input(rng)
+        if s.startswith("-"):
+            s = "x"  # argparse would take it for an option
         if kind == "no_grammar":
             cargs = [a for a in self.constraint_files]
             cargs += [x for t, fmt in zip(self.plan["formula_texts"], self.plan["constraint_formats"]) if fmt == "arg" for x in ("--constraint", t)]
@@ -722,7 +724,10 @@ class Cli:
         rng = random.Random(seed)
         which = rng.choice(["grammar", "constraint"])
         cmd = rng.choice(["solve", "check", "parse", "repair", "mutate"])
-        tail = [] if cmd == "solve" else ["--input-string", self.make_input(rng) or "x"]
+        inp_for_tail = self.make_input(rng) or "x"
+        if inp_for_tail.startswith("-"):
+            inp_for_tail = "x"  # argparse would take it for an option
+        tail = [] if cmd == "solve" else ["--input-string", inp_for_tail]
         if which == "grammar":
             bnf = to_bnf(self.g)
             bad = rng.choice([
